@@ -351,6 +351,85 @@ def scenario_forward(seed):
         w.destroy()
 
 
+def block_of(prev_blocks, txs, salt=0):
+    height = len(prev_blocks)
+    prev_hash = prev_blocks[-1]['hash'] if prev_blocks else bytes(32)
+    for tx in txs:
+        tx['raw'] = ser_tx(tx)
+        tx['hash'] = dsha(tx['raw'])
+    merkle = dsha(b''.join(t['hash'] for t in txs))
+    header = struct.pack('<i', 1) + prev_hash + merkle + struct.pack('<III', height, 0, salt)
+    raw = header + varint(len(txs)) + b''.join(t['raw'] for t in txs)
+    return {'height': height, 'header': header, 'hash': dsha(header), 'txs': txs, 'raw': raw}
+
+
+def colliding_pair(op_a, op_b, script_a, script_b):
+    '''two transactions (one output each, at index 0) whose hashes share the first four bytes - the compressed hash the
+    'h' table is keyed by - found by a birthday search over the output value'''
+    table = {}
+    for v in range(1, 160000):
+        table.setdefault(dsha(ser_tx({'ins': [op_a], 'outs': [(v, script_a)]}))[:4], v)
+    for v in range(1, 4000000):
+        tb = {'ins': [op_b], 'outs': [(v, script_b)]}
+        va = table.get(dsha(ser_tx(tb))[:4])
+        if va is not None:
+            return {'ins': [op_a], 'outs': [(va, script_a)]}, tb
+    raise RuntimeError('no 4-byte collision found')
+
+
+def scenario_collision(seed):
+    '''C01: outputs that share the 4-byte compressed tx hash AND the output index (and, every other time, the script):
+    flushed to the DB, then one of them is spent; also after a restart and with the other one spent later.'''
+    rnd = random.Random(seed)
+    g = ChainGen(rnd)
+    blocks = []
+    for _ in range(rnd.randrange(3, 6)):
+        blocks.append(g.make_block(blocks))
+    spendable = sorted(spendable_outputs(blocks))
+    if len(spendable) < 2:
+        return {'seed': seed, 'scenario': 'collision', 'skipped': 'too few outputs'}, None
+    op_a, op_b = rnd.sample(spendable, 2)
+    k = seed // 6                       # the four combinations in turn, the most delicate one first
+    same_script = k % 2 == 0
+    sa = rnd.choice(g.scripts)
+    sb = sa if same_script else rnd.choice([x for x in g.scripts if x != sa])
+    ta, tb = colliding_pair(op_a, op_b, sa, sb)
+    cb = {'ins': [(bytes(32), 0xffffffff)], 'outs': [(50 * 10 ** 8, rnd.choice(g.scripts)), (len(blocks) * 1000, g.scripts[0])]}
+    pair = [ta, tb] if rnd.random() < 0.5 else [tb, ta]
+    blocks.append(block_of(blocks, [cb] + pair))
+    first_spent = pair[1] if (k // 2) % 2 == 0 else pair[0]
+    other = pair[0] if first_spent is pair[1] else pair[1]
+    desc = {'seed': seed, 'scenario': 'collision', 'same_script': same_script,
+            'spent_first': 'earlier tx' if first_spent is pair[0] else 'later tx'}
+    w = World()
+    try:
+        w.open()
+        index_forward(w, blocks, rnd)
+        w.flush(True)                                   # both outputs are in the DB, not in the cache
+        for victim in (first_spent, other):
+            cb = {'ins': [(bytes(32), 0xffffffff)], 'outs': [(50 * 10 ** 8, rnd.choice(g.scripts)), (len(blocks) * 1000, g.scripts[1])]}
+            sp = {'ins': [(dsha(ser_tx(victim)), 0)], 'outs': [(7, rnd.choice(g.scripts))]}
+            blocks.append(block_of(blocks, [cb, sp]))
+            try:
+                assert w.advance(blocks[-1])
+            except BaseException as e:   # noqa
+                return desc, f'spending one of two outputs with the same compressed hash and index raised {e!r}'
+            w.flush(True)
+            bad = w.compare(blocks, 'after spending one of two outputs sharing compressed hash and index: ')
+            if bad:
+                return desc, bad
+            if rnd.random() < 0.5:
+                w.close()
+                w.open()
+        return desc, None
+    finally:
+        w.destroy()
+
+
+def scenario_c01(seed):
+    return scenario_collision(seed) if seed % 6 == 5 else scenario_forward(seed)
+
+
 def scenario_reorg(seed):
     rnd = random.Random(seed)
     g = ChainGen(rnd)
@@ -777,7 +856,7 @@ def scenario_c14(seed):
     return scenario_compaction_twice(seed) if seed % 3 == 2 else scenario_compaction(seed)
 
 
-MODES = {'c01': scenario_forward, 'c02': scenario_forward, 'c03': scenario_reorg, 'c04': scenario_crash_forward,
+MODES = {'c01': scenario_c01, 'c02': scenario_forward, 'c03': scenario_reorg, 'c04': scenario_crash_forward,
          'c05': scenario_crash_backup, 'c14': scenario_c14, 'c15': scenario_undo_window,
          'c15-falling': scenario_undo_window_falling}
 
